@@ -49,6 +49,8 @@ type RunResult struct {
 	Sample      any            `json:"sample,omitempty"`
 	TapeLen     int            `json:"tape_len"`
 	Replay      string         `json:"replay,omitempty"`
+	Minimised   bool           `json:"minimised,omitempty"`
+	MinTapeLen  int            `json:"min_tape_len,omitempty"`
 	Reproduced  int            `json:"reproduced,omitempty"`
 	WallMs      int64          `json:"wall_ms"`
 }
